@@ -1,7 +1,7 @@
 """Expression evaluation."""
 import ast
 import z3
-from .core import (Val, VNone, VTrue, VFalse, VInt, VStr, VBool, VRef, VFloat, I, B, S, R, ArrIV, ArrVB, ArrVV,
+from .core import (tkey, Val, VNone, VTrue, VFalse, VInt, VStr, VBool, VRef, VFloat, I, B, S, R, ArrIV, ArrVB, ArrVV,
                    ClassName, IsSub, StrOf, ReprOf, IdStr, Lower, TYPEBASE, HOST_CLASS_BASE, Unsupported,
                    FuncObj, BoundMethod, ClassObj, ModuleObj, ExternObj, BuiltinFn, SymCallable, SuperObj, Frame)
 from .front import mangle
@@ -519,7 +519,7 @@ class ExprMixin:
                    self.st.ghost.get("host_owned", []) + self.st.ghost.get("host_data_dicts", [])):
                 from .contract import ANY as _ANY
                 self.assume_shape(val, _ANY)      # values of a dictionary owned by the host program
-            vs = self.st.ghost.get("dict_value_sorts", {}).get(str(z3.simplify(base)))
+            vs = self.st.ghost.get("dict_value_sorts", {}).get(tkey(base))
             if vs is not None:
                 self.assume_shape(val, vs)      # declared value type of this (agent-owned) dictionary
             return val
